@@ -52,4 +52,5 @@ registry! {
     c26::C26,
     c28::C28,
     c29::C29,
+    c31::C31,
 }
